@@ -125,6 +125,17 @@ def gen(ctx):
                 continue
             cases.append(Case(3 * B + 7, driver=driver, workers=rng.choice([1, 2]), bs=rng.choice([B, "noprogress"]), reflink="never",
                               plan=[("fail", errno, 0, "openat", 1, which)], label="failing open / create"))
+    # the RELEASE build (integer overflow wraps there instead of panicking; the optimiser is on): the boundary grid again, block
+    # sizes up to 2^64 - 1 included
+    for driver in ("parfile", "parblock"):
+        for (size, bs) in [(0, 1), (1, 1), (300, 1), (5 * B + 1, B), (7 * B, B), (100001, (1 << 64) - 1), (100001, 1 << 63), (3 * B + 7, 4097), (200000, "noprogress")]:
+            c = Case(size, driver=driver, workers=rng.choice([1, 4]), bs=bs, reflink=rng.choice(["auto", "never"]),
+                     prior=rng.choice(["absent", "longer", "shorter"]), label="release build")
+            c.binary = "xcp_release"
+            cases.append(c)
+        c = Case(64 * B + 123, data=[(0, B), (20 * B, 24 * B), (60 * B, 64 * B + 123)], driver=driver, workers=2, bs=3 * B + 1, reflink="never", label="release build, sparse")
+        c.binary = "xcp_release"
+        cases.append(c)
     if not quick:
         for _ in range(1500):
             bs = rng.choice(bss)
@@ -160,6 +171,8 @@ def run(ctx, out):
                 "sources in one invocation (directories with and without -T, files, with equal and distinct relative names): every "
                 "selected file at ITS mapped destination; non-trivial = non-empty file with >=2 "
                 "transfers, or sparse, or overwriting, or a capped kernel; distinct = distinct case tuple")
+    import core as _core
+    ctx.bins["xcp_release"] = _core.build_rust_release()
     datapath.run_cases(ctx, out, gen(ctx), "C01", oracle, nontrivial)
     run_several_sources(ctx, out)
     run_unreachable_and_vanishing(ctx, out)
